@@ -26,21 +26,40 @@ SPEC = dict(
     level="fault_enumeration",
     workers=16,
     deadline={"quick": 280, "thorough": 2400},
-    rule="input layouts = every (content, layout shape) reachable by a prefix history over {write batches, flush} up to the length "
+    rule="two families of input layouts. (1) prefix histories: every (content, layout shape) reachable by a prefix history over {write batches, flush} up to the length "
          "bound (equivalent inputs explored once); for each layout each applicable reorganisation {level compaction, full compaction, "
          "out-of-order merge, full out-of-order merge} runs under the lib/fileops recorder; (a) completion: dump equals the dump before; "
          "(b) a crash image before EVERY mutation and after every torn write prefix is reopened with the real recovery: dump equals the "
          "dump before the reorganisation, a second reopen changes neither answers nor loaded files; (c) thorough: crash images of the "
          "recovery pass itself; the out-of-order merges additionally run with the raw chunk copy of untouched series cut into 24-byte "
-         "pieces (instead of 512 KiB) so that the multi-piece copy loop is reached by small chunks; evaluations = completed runs + recoveries; distinct_nontrivial = distinct (case, crash image)",
-    assumptions=["process-crash model (no loss of un-synced blocks)", "2 WAL partitions, TSSTORE engine, level-compaction group size 2, 2-row segments",
-                 "leftover .init/.tmp files that are ignored by the loader are counted in the evidence, not reported"],
+         "pieces (instead of 512 KiB) so that the multi-piece copy loop is reached by small chunks. (2) injected level layouts: EVERY level "
+         "vector of length 1..4 (thorough 1..5) over levels {0,1,2} - n ordered files written by the product (file k = the k-th, later time "
+         "slice of every series), level set in the file name, real loader - x [data.parquet-task] tssp-to-parquet-level {0,1,2} x "
+         "{level compaction, full-compaction rounds until nothing changes, one round = the pre-full pass (parquet level > 0 only)}; "
+         "completion: dump equals the dump before, and walking the ordered files in LIST order (as cursors and the next compaction do) "
+         "gives every series the same rows in the same order, times strictly increasing, list sorted; a panic inside a compaction task "
+         "(recovered by compact-recovery) is a violation; the same crash enumeration as (b) for vectors of length <= 3 (thorough <= 4; "
+         "recovery-pass images for length <= 2), recovered images also pass the walk; equal (vector, sequence of file-system steps) "
+         "explored once. A case = a reorganisation that changes the layout; evaluations = completed runs + recoveries; "
+         "distinct_nontrivial = distinct (case, complete run or crash image)",
+    assumptions=["process-crash model (no loss of un-synced blocks)", "2 WAL partitions, TSSTORE engine, level-compaction group size 2, 8-row segments",
+                 "leftover .init/.tmp files that are ignored by the loader are counted in the evidence, not reported",
+                 "the level of a data file exists only in its name (RenameFileToLevel lifts a file by renaming it): an injected level layout is a "
+                 "flushed file renamed while the shard is closed; the conversion of files to parquet is outside the property (data files lie "
+                 "deeper than the 10/11 path components from which markParquetTaskDone derives an output directory, so it only logs an error)",
+                 "compact-recovery = true (product default): a panic of a compaction task is recovered by the product and reported by the harness"],
 )
 CLAIMED = True
 MANIFEST = dict(
     level="fault_enumeration", engine="crashfs",
-    technique="exhaustive crash-point enumeration of every reorganisation (compaction/merge replace protocol) over all bounded input layouts, real recovery, content-equality oracle",
-    text="Every reorganisation applicable to every input layout reachable by bounded write/flush prefixes is run to completion and under a crash "
-         "at every file-system step (incl. torn log writes and, in thorough, crashes inside recovery); contents must equal the contents before.",
-    note="Trusts the lib/fileops recorder, the sparse copy and the dump routine; planner choices limited to those reachable with group size 2.",
+    technique="exhaustive crash-point enumeration of every reorganisation (compaction/merge replace protocol) over all bounded input layouts "
+              "(write/flush prefix histories + every level vector of the ordered file list up to the length bound x parquet level), real recovery, "
+              "content-equality and file-walk-order oracle",
+    text="Every reorganisation applicable to every input layout reachable by bounded write/flush prefixes, and level compaction / full compaction / "
+         "the pre-full-compaction pass on every ordered file list with levels in {0,1,2}^(<=4, thorough <=5) under tssp-to-parquet-level 0/1/2, is run "
+         "to completion and under a crash at every file-system step (incl. torn log writes and, in thorough, crashes inside recovery); contents must "
+         "equal the contents before and every series must stay in time order when the ordered files are walked in list order.",
+    note="Trusts the lib/fileops recorder, the sparse copy, the dump routine and the chunk-iterator walk; level compaction group size 2; injected "
+         "layouts have one file per sequence (no split files), levels <= 2, no out-of-order files; crash images of injected layouts only up to "
+         "length 3 (quick) / 4 (thorough).",
 )
